@@ -877,6 +877,9 @@ impl Exec<'_> {
                 Some(a) => match TrainLoaderDriver::new(a) {
                     Ok(mut d) => {
                         d.set_epoch(epoch);
+                        // the other loader is reconfigured on its own (e.g. shorter sequences for
+                        // validation); that must not reach the observed loader
+                        d.set_max_length(3);
                         if d.iter().is_err() {
                             None
                         } else {
